@@ -16,7 +16,8 @@ class Show(ASTNode):
                  *args_, **kwargs):
         super().__init__(*args_, **kwargs)
 
-        if category == 'SLAVE HOSTS':
+        if category.upper() == 'SLAVE HOSTS' and name is None:
+            # in any spelling; with a name behind it is one of the custom three-word commands and is kept
             category = 'REPLICAS'
 
         self.category = category.upper()
